@@ -242,6 +242,20 @@ theorem entry_step {cfg : Config} {s : St} {last : Last} {acc : List Acc} {l : L
     have := psi_commit hinv pid tid (fun s2 th => schedThread s2 th t (sampleStack s2.cfg km ip chain)) hn'
     rw [(schedThread_spec _ _ _ _).2.2.2] at this
     simpa [projU] using this
+  | otherEvent pid tid t km ip chain =>
+    refine none_case ?_ (fun _ _ _ _ _ _ _ e => by cases e)
+    have e : step s (.otherEvent pid tid t km ip chain) =
+        commitThread (getThread (getByPid s pid).1 (getByPid s pid).2 tid).1
+          (getThread (getByPid s pid).1 (getByPid s pid).2 tid).2.1 tid
+          (otherEventThread (getThread (getByPid s pid).1 (getByPid s pid).2 tid).1
+            (getThread (getByPid s pid).1 (getByPid s pid).2 tid).2.2 pid tid t
+            (sampleStack (getThread (getByPid s pid).1 (getByPid s pid).2 tid).1.cfg km ip chain)) := rfl
+    rw [e] at hn' ⊢
+    have := psi_commit hinv pid tid
+      (fun s2 th => otherEventThread s2 th pid tid t (sampleStack s2.cfg km ip chain)) hn'
+    rw [projU_synth (fun u hu => by
+      simp only [otherEventThread, List.mem_singleton] at hu; rw [hu]; rfl), List.append_nil] at this
+    exact this
   | sample pid tid t km period ip chain =>
     by_cases h0 : tid = 0
     · have hstep : step s (.sample pid tid t km period ip chain) = s := by rw [h0]; simp [step]
@@ -450,6 +464,7 @@ theorem accStep_snd (l : Last) (acc : List Acc) (r : Rec) :
   | switchIn => simp [accStep]
   | switchOut => simp [accStep]
   | sched => simp [accStep]
+  | otherEvent => simp [accStep]
 
 theorem newSpec_proj (last : Last) (l : Life.S) (r : Rec) :
     (newSpec last l r).map (fun a => (a.pid, a.tid, a.t)) =
@@ -471,6 +486,7 @@ theorem newSpec_proj (last : Last) (l : Life.S) (r : Rec) :
   | switchIn => rfl
   | switchOut => rfl
   | sched => rfl
+  | otherEvent => rfl
 
 theorem acceptedInc_fold_proj (rs : List Rec) :
     ∀ (last : Last) (l : Life.S) (out : List AccI) (acc : List Acc),
